@@ -378,3 +378,27 @@ package gozxing
 //@   property C16
 //@   ensures r == b.height
 //@   modifies nothing
+
+// sget: the bit view of a bare word slice with row stride rs
+//@ spec func sget(s []uint32, rs int, x int, y int) bool = wordbit(s[y*rs + x/32], x%32)
+
+//@ func (b *BitMatrix) Rotate90()
+//@   property C16
+//@   requires wfBM(b)
+//@   use mulBound((b.height+31)/32, b.width, 32768, 1048576)
+//@   ensures wfBM(b) && b.width == old(b.height) && b.height == old(b.width)
+//@   ensures forall x int, y int :: widx(b, x, y) && hint(rowIdx(x, old(b.height), old(b.rowSize), (old(b.width)-1-y)/32)) && 0 <= x && x < b.width && 0 <= y && y < b.height ==> mget(b, x, y) == old(mget(b, b.width - 1 - y, x))
+//@   ensures forall x int, y int :: widx(b, x, y) && b.width <= x && x < b.rowSize*32 && 0 <= y && y < b.height ==> !mget(b, x, y)
+//@   modifies b.width, b.height, b.rowSize, b.bits
+//@   let W = old(b.width)
+//@   let H = old(b.height)
+//@   loop 0: invariant 0 <= y && y <= H && newWidth == H && newHeight == W && newRowSize == (H+31)/32 && fresh(newBits) && off(newBits) == 0 && len(newBits) == newRowSize*newHeight
+//@   loop 0: invariant b.width == W && b.height == H && b.rowSize == old(b.rowSize) && b.bits == old(b.bits)
+//@   loop 0: invariant forall x2 int, y2 int :: hint(rowIdx(y2, newHeight, newRowSize, x2/32)) && 0 <= x2 && x2 < newRowSize*32 && 0 <= y2 && y2 < newHeight ==> sget(newBits, newRowSize, x2, y2) == (x2 < y && mget(b, W-1-y2, x2))
+//@   loop 0: decreases H - y
+//@   loop 1: invariant 0 <= y && y < H && 0 <= x && x <= W && newWidth == H && newHeight == W && newRowSize == (H+31)/32 && fresh(newBits) && off(newBits) == 0 && len(newBits) == newRowSize*newHeight
+//@   loop 1: invariant b.width == W && b.height == H && b.rowSize == old(b.rowSize) && b.bits == old(b.bits)
+//@   loop 1: use rowIdx(y, b.height, b.rowSize, x/32)
+//@   loop 1: use rowIdx(newHeight-1-x, newHeight, newRowSize, y/32)
+//@   loop 1: invariant forall x2 int, y2 int :: hint(rowIdx(y2, newHeight, newRowSize, x2/32)) && hint(rowIdxInj(y2, x2/32, newHeight-x, y/32, newRowSize)) && 0 <= x2 && x2 < newRowSize*32 && 0 <= y2 && y2 < newHeight ==> sget(newBits, newRowSize, x2, y2) == ((x2 < y || (x2 == y && W-1-y2 < x)) && mget(b, W-1-y2, x2))
+//@   loop 1: decreases W - x
